@@ -7,6 +7,7 @@ use crate::gen::{self, Profile};
 use crate::model::*;
 use crate::pipeprops;
 use crate::pipesim;
+use crate::readsim;
 use crate::report::{RunReport, RunStats};
 use crate::rng::{hash_bytes, Rng};
 
@@ -15,9 +16,10 @@ pub enum AnyCase {
     Pipe(PipeCase),
     Multi(pipeprops::MultiCase),
     Enum(pipeprops::EnumCase),
+    Read(readsim::ReadCase),
 }
 
-pub const ALL_PROPS: &[&str] = &["C01", "C02", "C06", "C07", "C08", "C09", "C11", "C13", "C14"];
+pub const ALL_PROPS: &[&str] = &["C01", "C02", "C03", "C04", "C05", "C06", "C07", "C08", "C09", "C11", "C13", "C14"];
 
 pub struct Budget {
     pub quick_runs: u64,
@@ -29,6 +31,14 @@ pub fn budget(prop: &str) -> Budget {
         "C11" => Budget {
             quick_runs: 4_000,
             thorough_runs: 150_000,
+        },
+        "C03" | "C04" => Budget {
+            quick_runs: 4_000,
+            thorough_runs: 200_000,
+        },
+        "C05" => Budget {
+            quick_runs: 640,
+            thorough_runs: 40_000,
         },
         "C14" => Budget {
             quick_runs: 400,
@@ -82,6 +92,8 @@ pub fn gen_case(prop: &str, seed: u64, idx: u64, tier: &str) -> AnyCase {
         "C11" => return AnyCase::Multi(pipeprops::gen_c11(&mut rng, tier)),
         "C13" => return AnyCase::Pipe(pipeprops::gen_c13(&mut rng)),
         "C14" => return AnyCase::Enum(pipeprops::gen_c14(&mut rng)),
+        "C03" | "C04" => return AnyCase::Read(readsim::gen_read_case(&mut rng, prop)),
+        "C05" => return AnyCase::Read(readsim::gen_c05(&mut rng, idx)),
         _ => {}
     }
     let p = profile_for(prop);
@@ -136,6 +148,8 @@ pub fn run_case(prop: &str, case: &AnyCase) -> RunReport {
     match case {
         AnyCase::Multi(mc) => pipeprops::run_c11(mc),
         AnyCase::Enum(ec) => pipeprops::run_c14(ec),
+        AnyCase::Read(rc) if prop == "C05" => readsim::run_c05(rc),
+        AnyCase::Read(rc) => readsim::run_read_case(rc),
         AnyCase::Pipe(pc) if prop == "C13" => pipeprops::run_c13(pc),
         AnyCase::Pipe(pc) => {
             let out = pipesim::run_write(pc, false);
@@ -285,6 +299,7 @@ pub fn shrink(case: &AnyCase) -> Vec<AnyCase> {
         AnyCase::Pipe(p) => shrink_pipe(p).into_iter().map(AnyCase::Pipe).collect(),
         AnyCase::Multi(m) => pipeprops::shrink_c11(m).into_iter().map(AnyCase::Multi).collect(),
         AnyCase::Enum(e) => pipeprops::shrink_c14(e).into_iter().map(AnyCase::Enum).collect(),
+        AnyCase::Read(r) => readsim::shrink_read(r).into_iter().map(AnyCase::Read).collect(),
     }
 }
 
@@ -303,6 +318,6 @@ pub fn explicit_schedule(prop: &str, case: &AnyCase) -> AnyCase {
             }
         }
         AnyCase::Multi(m) => AnyCase::Multi(pipeprops::explicit_c11(m)),
-        AnyCase::Enum(_) => case.clone(),
+        AnyCase::Enum(_) | AnyCase::Read(_) => case.clone(),
     }
 }
